@@ -24,7 +24,7 @@ import (
 
 // ---- C15: the RocksDB multi-value store behaves like a map of lists ---------------------------
 
-var c15Keys = []string{"a", "ab", "b", "a\x00"}
+var c15Keys = []string{"a", "ab", "b", "a\x00", ""} // the empty key is a legal RocksDB key and the store accepts it
 var c15Vals = []string{"", "x", "xy", "xz", "y", "xyz", "\x00\x00\x00\x00", "\x01\x00\x00\x00x"}
 
 // C15KV is one key/value reference into the alphabets.
